@@ -2,8 +2,8 @@
 import re
 
 from .. import exprtree as et
-from ..flow import bool_branch, discr_branch, edge_dominates, must_pass, awaited
-from ..mir import op_base, op_place, op_const, const_int, short
+from ..flow import bool_branch, discr_branch, edge_dominates, must_pass, awaited, truth_implies
+from ..mir import op_base, op_place, op_const, op_local, const_int, short
 from .panics import resolve_place, pretty_sig
 
 EXPLANATION = (
@@ -21,6 +21,83 @@ TRUSTED = ["rustls certificate validation", "the external auth command's semanti
 NOT_DECIDED = ["rustls' validation itself", "timing of cache expiry"]
 
 
+def _key_type(prog, dty):
+    """the key type K of HashMap<K, bool>: the (String, String) pair itself, or a struct of this crate holding two Strings whose
+    equality compares every field (so two keys are equal only when user and password both are).  Returns (ok, adt path | None, why)"""
+    m = re.search(r"HashMap<(.*), bool", dty)
+    if not m:
+        return False, None, "not a HashMap<_, bool>"
+    K = m.group(1)
+    if K == "(alloc::string::String, alloc::string::String)":
+        return True, None, "pair"
+    adt = None
+    for a in prog.items["redproxy_rs"]["adts"]:
+        if a["path"] == K:
+            adt = a
+    if adt is None or len(adt["variants"]) != 1:
+        return False, None, "key type is neither the pair nor a struct of this crate"
+    fields = adt["variants"][0]["fields"]
+    strings = [fl for fl in fields if prog.types["redproxy_rs"][fl["ty"]]["s"] == "alloc::string::String"]
+    if len(strings) < 2:
+        return False, K, "key struct holds fewer than two Strings"
+    eqs = prog.find(r"^<%s as core::cmp::PartialEq>::eq$" % re.escape(K), "redproxy_rs")
+    if len(eqs) != 1:
+        return False, K, "no PartialEq::eq for the key struct"
+    eq = eqs[0]
+    facts = truth_implies(eq, 0, True)
+    if facts is None:
+        return False, K, "equality of the key struct not understood"
+    ats = [f_[1] for f_ in facts if f_[0] == "at"]
+    for fl in fields:
+        name = "f:" + fl["name"]
+        covered = False
+        for c in eq.calls:
+            if not re.search(r"cmp::PartialEq::eq$|cmp::PartialEq::ne$", c.path or "") or len(c.args) != 2 or c.path.endswith("ne"):
+                continue
+            sides = []
+            for a in c.args:
+                l = op_base(a)
+                tr = eq.trace(l) if l is not None else []
+                pl = [info for k, info in tr if k in ("place", "ref")]
+                sides.append(set(info[0] for info in pl if name in info[1:]))
+            if not (1 in sides[0] and 2 in sides[1]) and not (2 in sides[0] and 1 in sides[1]):
+                continue
+            if any(f_[0] == "call" and f_[1] is c and f_[2] for f_ in facts):
+                covered = True
+            for (sb, tt, ft) in bool_branch(eq, c.dest[0]) if len(c.dest) == 1 else []:
+                if tt != ft and any(edge_dominates(eq, sb, tt, b) for b in ats):
+                    covered = True
+        if not covered:
+            return False, K, "equality of the key struct does not compare field %s" % fl["name"]
+    return True, K, "struct %s compared on every field" % K
+
+
+def _key_components(fn, l, PASS, key_adt):
+    """the key handed to the map is an aggregate (the pair, or the key struct) whose components are projections .0 and .1 of the
+    function's argument: returns the projections in field order"""
+    if l is None:
+        return None
+    tr = fn.trace(l, through_calls=PASS)
+    agg = None
+    for k, info in tr:
+        if k == "agg" and (info.get("ak") == "tuple" or (key_adt and info.get("ak") == "adt" and info.get("def") == key_adt)):
+            agg = info
+    if agg is None:
+        return None
+    comps = []
+    for o in agg["ops"]:
+        lo = op_base(o)
+        proj = None
+        if lo is not None:
+            for k, info in fn.trace(lo, through_calls=PASS):
+                if k in ("place", "ref") and proj is None:
+                    fs = [x for x in info[1:] if x.startswith("f:") and x[2:].isdigit()]
+                    if fs:
+                        proj = fs[-1]
+        comps.append(proj)
+    return comps
+
+
 def run(chk, prog):
     # ---------------------------------------------------------------- (1)
     from . import shared as _sh
@@ -36,7 +113,7 @@ def run(chk, prog):
         res = a["result"] if a else None
         # argument: &request.auth where request is the awaited result of read_from
         arg_ok = False
-        tr = hs.trace(op_base(chks[0].args[1]))
+        tr = hs.trace(op_base(chks[0].args[1]), through_calls=[r"Option::<T>::as_(ref|deref)$"])
         for k, info in tr:
             if k in ("ref", "place") and "f:auth" in info[1:]:
                 arg_ok = True
@@ -106,6 +183,19 @@ def run(chk, prog):
                         for (sb, tt, ft) in bool_branch(g, st["lhs"][0]):
                             # edge on which required == false
                             req_edges.append((sb, tt if neg else ft))
+        # ... or on a boolean that can only be true when `required` was read as false (`a && !self.required` kept in a local)
+        for sb in g.reachable:
+            t = g.term(sb)
+            if not t or t["k"] != "switch" or op_local(t["d"]) is None:
+                continue
+            zero = [x for v, x in t["ts"] if v == 0]
+            if not zero or zero[0] == t["o"]:
+                continue
+            for val, tb in ((True, t["o"]), (False, zero[0])):
+                facts = truth_implies(g, op_local(t["d"]), val) or []
+                for f_ in facts:
+                    if f_[0] == "place" and "f:required" in f_[1][1:] and f_[2] is False:
+                        req_edges.append((sb, tb))
         ok = bool(none_blocks) and all(any(edge_dominates(g, sb, e, nb) for sb, e in req_edges) for nb in none_blocks)
         chk.instance("none-refused", "%s:%s" % (g.file, g.line), "select_method offers NONE only when authentication is not required", ok)
         if not ok:
@@ -153,7 +243,6 @@ def run(chk, prog):
     # the constant-false result is the arm without credentials
     ok = ok and all(not any(edge_dominates(ck, sb, e, b) for sb, e in some_edges) for b, v in consts if not v)
     # static user list: an entry matches only if BOTH its user name and its password are equal (full string equality) to the presented ones
-    from ..flow import truth_implies
     preds = [g for g in prog.children(ck) if any("f:username" in str(st) or "f:password" in str(st) for b in g.reachable for st in g.stmts(b))]
     okm = len(preds) >= 1
     whym = "" if okm else "the closure comparing a configured user with the presented credentials was not found"
@@ -206,17 +295,20 @@ def run(chk, prog):
         for fl in cache["variants"][0]["fields"]:
             if fl["name"] == "data":
                 dty = prog.types["redproxy_rs"][fl["ty"]]["s"]
-        ok = "HashMap<(alloc::string::String, alloc::string::String), bool" in dty
-        chk.instance("cache", cache["span"]["f"], "verdict cache is keyed by the (user, password) pair", ok, dty[:120])
+        PASS = [r"clone::Clone::clone$", r"string::ToString::to_string$", r"borrow::ToOwned::to_owned$", r"convert::Into::into$",
+                r"convert::From::from$", r"string::String::from$"]
+        ok, key_adt, why_k = _key_type(prog, dty)
+        chk.instance("cache", cache["span"]["f"], "verdict cache is keyed by the (user, password) pair", ok, (why_k + " " + dty)[:160])
         if not ok:
             chk.finding("cache", "common::auth::Cache", "key-type", "", cache["span"]["f"],
-                        "the authentication verdict cache is no longer keyed by the (user, password) pair: %s" % dty[:160])
+                        "the authentication verdict cache is no longer keyed by the (user, password) pair: %s %s" % (why_k, dty[:160]))
         cc = prog.body_of(prog.one(r"^common::auth::Cache::check$"))
         gets = [c for c in cc.calls if re.search(r"HashMap::<[^>]*>::get$", c.path or "")]
         ok = len(gets) == 1
         if ok:
             tr = cc.trace(op_base(gets[0].args[1]))
-            ok = tr[-1][0] in ("arg", "place") and not any(k in ("place", "ref") and info[0] != 1 and any(x.startswith("f:") and x[2:].isdigit() for x in info[1:]) for k, info in tr if k in ("place", "ref"))
+            whole = tr[-1][0] in ("arg", "place") and not any(k in ("place", "ref") and info[0] != 1 and any(x.startswith("f:") and x[2:].isdigit() for x in info[1:]) for k, info in tr if k in ("place", "ref"))
+            ok = (whole and key_adt is None) or _key_components(cc, op_base(gets[0].args[1]), PASS, key_adt) == ["f:0", "f:1"]
         chk.instance("cache", "%s:%s" % (cc.file, cc.line), "Cache::check looks up the whole pair", ok)
         if not ok:
             chk.finding("cache", cc.key, "lookup-key", "", "%s:%s" % (cc.file, cc.line), "Cache::check does not look the verdict up by the whole (user, password) pair")
@@ -225,25 +317,7 @@ def run(chk, prog):
         okk = False
         if len(ins) == 1:
             # key aggregate built from both projections .0 and .1 of the argument
-            PASS = [r"clone::Clone::clone$", r"string::ToString::to_string$", r"borrow::ToOwned::to_owned$", r"convert::Into::into$"]
-            tr = cs.trace(op_base(ins[0].args[1]), through_calls=PASS)
-            agg = None
-            for k, info in tr:
-                if k == "agg" and info.get("ak") == "tuple":
-                    agg = info
-            comps = []
-            if agg is not None and len(agg["ops"]) == 2:
-                for o in agg["ops"]:
-                    l = op_base(o)
-                    proj = None
-                    if l is not None:
-                        for k, info in cs.trace(l, through_calls=PASS):
-                            if k in ("place", "ref") and proj is None and info[0] != 1:
-                                fs = [x for x in info[1:] if x.startswith("f:")]
-                                if fs:
-                                    proj = fs[-1]
-                    comps.append(proj)
-            okk = comps == ["f:0", "f:1"]
+            okk = _key_components(cs, op_base(ins[0].args[1]), PASS, key_adt) == ["f:0", "f:1"]
         # timeout == 0 -> return before insert
         tz = False
         from .panics import _cmp_facts
